@@ -124,19 +124,67 @@ Definition value_sx (v : value) : sx :=
   | VHandshake v => SL [SZ 13; SS v]
   end.
 
-(* observables: the bytes written; then either an error marker or the decoded
-   value and the bytes written for it *)
+(* ---- the document a tree denotes: what is compared with the implementation's bytes
+        as read by the harness's neutral reader.  Attributes sorted by name (stable),
+        character data exact, adjacent runs joined, no lexical detail (raw-LF flag,
+        attribute order). ---- *)
+Fixpoint str_leb (a b : str) : bool :=
+  match a, b with
+  | [], _ => true
+  | _ :: _, [] => false
+  | x :: a', y :: b' => if N.ltb x y then true else if N.ltb y x then false else str_leb a' b'
+  end.
+Fixpoint insert_kv (kv : str * str) (l : list (str * str)) : list (str * str) :=
+  match l with
+  | [] => [kv]
+  | h :: t => if str_leb (fst h) (fst kv) then h :: insert_kv kv t else kv :: l
+  end.
+Definition sort_kvs (l : list (str * str)) : list (str * str) :=
+  fold_left (fun acc kv => insert_kv kv acc) l [].
+
+Fixpoint merge_texts (l : list sx) : list sx :=
+  match l with
+  | [] => []
+  | SL [SZ 1; SS a] :: rest =>
+      let r := merge_texts rest in
+      match a with
+      | [] => r
+      | _ => match r with
+             | SL [SZ 1; SS b] :: r' => SL [SZ 1; SS (a ++ b)] :: r'
+             | _ => SL [SZ 1; SS a] :: r
+             end
+      end
+  | x :: rest => x :: merge_texts rest
+  end.
+
+Fixpoint canon_sx (t : xtree) : sx :=
+  match t with
+  | XT _ s => SL [SZ 1; SS s]
+  | XE ns l a ks =>
+      SL [SZ 0; SS ns; SS l; kvs_sx (sort_kvs a);
+          SL (merge_texts ((fix go (l : list xtree) : list sx :=
+                              match l with [] => [] | k :: r => canon_sx k :: go r end) ks))]
+  end.
+
+(* observables: the document written; then, twice (the harness decodes the
+   implementation's own bytes and the same document in the model printer's
+   spelling), either an error marker or the decoded value *)
 Definition run_typed (v : value) : sx :=
-  let out := print (enc v) in
-  SL [SS out;
-      match parse out with
-      | None => SL [SZ (-1)]
-      | Some t =>
-          match dec Generated.registry (vtype_of v) t with
-          | None => SL [SZ (-2)]
-          | Some v' => SL [value_sx v'; SS (print (enc v'))]
-          end
-      end].
+  let t := enc v in
+  let r := match parse (print t) with
+           | None => SL [SZ (-1)]
+           | Some t' =>
+               match dec Generated.registry (vtype_of v) t' with
+               | None => SL [SZ (-2)]
+               | Some v' => SL [value_sx v']
+               end
+           end in
+  (* in the domain of C01_parse_print the document is enc v itself; outside it (e.g. a
+     child without namespace under a parent with one) it is what the printed form
+     denotes, i.e. what the model's own reader makes of it *)
+  let doc := if wf_doc t then t
+             else match parse (print t) with Some t' => t' | None => t end in
+  SL [canon_sx doc; r; r].
 
 (* [SL [SZ 0]]: an oracle-only case of the harness (reflection round trip of a
    type the model does not cover); nothing to compare *)
